@@ -409,13 +409,14 @@ def positions(g, g2):
     for, so that an implementation which merely orders nodes/edges differently is not accused of
     breaking the property (it will still differ from the model: a 'no failing input' report)."""
     out = []
-    rs, rs2 = g.all_rules(), g2.all_rules()
-    for k, r in enumerate(rs):
-        pn, pe = _rank_positions(r)
-        if k < len(rs2) and not _check_iso(r, rs2[k], pn, pe):
-            alt = _search_iso(r, rs2[k])
-            if alt is not None: pn, pe = alt
-        out.append((pn, pe))
+    for lhs, rs in g._rules.items():
+        rs2 = g2.rules(lhs)                 # the checker aligns the rules of g2 to the key order of g
+        for k, r in enumerate(rs):
+            pn, pe = _rank_positions(r)
+            if k < len(rs2) and not _check_iso(r, rs2[k], pn, pe):
+                alt = _search_iso(r, rs2[k])
+                if alt is not None: pn, pe = alt
+            out.append((pn, pe))
     return out
 
 def roundtrip(g, is_fgg, second):
@@ -889,7 +890,14 @@ def run(tier, seed):
                open_items=OPEN_ITEMS)
     return cov, violations
 
-OPEN_ITEMS = []
+OPEN_ITEMS = [
+    "completeness of the oracle hrg_iso_b is not proved (only soundness, C14_iso_oracle_sound): a rejected bijection does not by itself prove non-isomorphism; the harness first tries the bijection read off the code, then searches for any other one before handing a witness to the checker",
+    "weights_to_json is modelled by its result (dense nested list of the denotation); PatternedTensor.__iter__/dim_to_dense are not modelled here (C06)",
+    "'hence the same sum-product' presupposes that sum_product depends only on the denoted tensors (C06/C07); the check compares the round-tripped grammar with the densified original (always equal so far) and only counts/prints a NOTE where the patterned original differs (SumAxis(0, e, 0) vs e in unify)",
+    "C14_fgg_roundtrip excludes every empty dimension (guard factor_wf), although only an empty dimension followed by another one fails (F21)",
+    "json.dumps acceptance is by construction of the model's json type (null/bool/int/float incl. infinities/str/list/dict with str keys); NaN weights are outside the model",
+    "rounding of weight literals that are not exactly representable in the default dtype (float32) is not modelled; the generators use dyadic rationals",
+]
 
 def replay(path):
     import fggs
@@ -934,7 +942,7 @@ def replay(path):
 
 MANIFEST = dict(
     level="proof",
-    text="Coq theorems about a Gallina model that follows fggs/formats.py statement by statement: json_to_hrg(hrg_to_json g) is isomorphic to g for every well-formed g and every str() of the implicit ids (C14_roundtrip_iso); with explicit ids the second round trip reproduces the JSON (C14_second_roundtrip_verbatim); out-of-range node numbers are rejected with ValueError except negative ones within -n..-1, which wrap (refutation witness + guarded theorem); the strided to_dense of json_to_weights' result is the tensor the patterned specification denotes (C14_patterned_weights). The model is tied to /repo on every run by comparing JSON, grammars, dense weights and exception kinds exactly, and every implementation output is judged by the extracted oracles hrg_iso_b / spec_dense / has_oor whose soundness is proved.",
-    note="Trusted: Coq kernel + vm_compute, extraction (ExtrOcamlBasic) cross-checked against vm_compute, the Python harness mapping live fggs objects to model values. weights_to_json is modelled by its dense result; json.dumps/loads run but are not modelled. Known findings F10, F19, F20 are reported as KNOWN-FINDING.",
+    text="Coq theorems about a Gallina model that follows fggs/formats.py statement by statement: json_to_hrg(hrg_to_json g) is isomorphic to g for every well-formed g and every str() of the implicit ids (C14_roundtrip_iso); at the FGG level, through FGG.from_hrg, with equal domains and factors equal as dense tensors (C14_fgg_roundtrip, under guards excluding the defects F20/F21); with explicit ids the second round trip reproduces the JSON (C14_second_roundtrip, _verbatim); out-of-range node numbers are rejected with ValueError except negative ones within -n..-1, which wrap (refutation witness + guarded theorem); the strided to_dense of json_to_weights' result is the tensor the patterned specification denotes (C14_patterned_weights). The model is tied to /repo on every run by comparing JSON, grammars, dense weights and exception kinds exactly, and every implementation output is judged by the extracted oracles hrg_iso_b / spec_dense / has_oor (hrg_iso_b sound by C14_iso_oracle_sound; spec_dense is the definition C14_patterned_weights equates the model with).",
+    note="Trusted: Coq kernel + vm_compute, extraction (ExtrOcamlBasic) cross-checked against vm_compute on a sample and on the non-zero verdicts, the Python harness mapping live fggs objects to model values. weights_to_json is modelled by its dense result; json.dumps/loads run but are not modelled. Defects F10, F19, F20 (two forms) and F21 (new) of /repo are reported as KNOWN-FINDING with refutation witnesses in Coq.",
     technique="Coq proof (model + theorems) + model/implementation correspondence with verified oracles",
     design_ref="DESIGN.md section 6, C14")
